@@ -60,8 +60,30 @@ func TestVerif_C03L1(t *testing.T) {
 			ok, _ := l1ChainEqual(e, target)
 			return ok && e.node.state.IsReady()
 		}
-		if !waitCond(6*time.Second, inSync) {
-			rep.Inconc(ci, "node did not get in sync")
+		// like the DS settle: if the node is not there yet, its request time-outs get to fire
+		// (a headers reply that only repeats known headers leaves the request pending)
+		settle := func() bool {
+			for round := 0; round < 4; round++ {
+				if waitCond(4*time.Second, inSync) {
+					return true
+				}
+				if round < 3 {
+					e.node.state.VerifAge(11 * time.Minute)
+					time.Sleep(5500 * time.Millisecond)
+				}
+			}
+			return false
+		}
+		if !settle() {
+			wl := peer.wireLog()
+			tail := []string{}
+			if len(wl) > 0 {
+				tail = wl[len(wl)-1]
+				if len(tail) > 12 {
+					tail = tail[len(tail)-12:]
+				}
+			}
+			rep.Inconc(ci, fmt.Sprintf("node did not get in sync: height %d of %d ready=%v conns=%d wire tail %v", e.node.blocks.LastHeight(), tip.Height, e.node.state.IsReady(), len(wl), tail))
 			e.stop(12 * time.Second)
 			peer.shutdown()
 			continue
@@ -130,7 +152,7 @@ func TestVerif_C03L1(t *testing.T) {
 				waitCond(3*time.Second, inSync)
 			}
 		}
-		waitCond(6*time.Second, inSync)
+		settle()
 		// phase 2: the last block is orphaned; its transactions are mined again on the new branch
 		if r.Intn(2) == 0 {
 			var ms []*wire.MsgTx
@@ -147,7 +169,7 @@ func TestVerif_C03L1(t *testing.T) {
 			peer.mu.Unlock()
 			fp += "R"
 		}
-		converged := waitCond(8*time.Second, inSync)
+		converged := settle()
 		time.Sleep(150 * time.Millisecond)
 		stopped, _ := e.stop(15 * time.Second)
 		peer.shutdown()
